@@ -1,13 +1,18 @@
 import RP.Driver.Common
+import RP.Driver.GameOps
 import RP.Model.Deck
-/-! line-protocol driver for C14: `drawat <deck> <i>` → `<card> <deck'>` -/
+/-! line-protocol driver for C14: `drawat <deck> <i>` → `<card> <deck'>`; the game ops
+    (`game`, `deck`, `allowed`) of `RP/Driver/GameOps.lean` for the dealing half -/
 open RP.Driver
 
 def handle (line : String) : String :=
   match words line with
   | ["drawat", d, i] =>
-    let (c, d') := RP.Deck.drawAt (natOf d) (natOf i)
-    s!"{c} {d'}"
-  | _ => "bad-op"
+    match d.toNat?, i.toNat? with
+    | some d, some i =>
+      let (c, d') := RP.Deck.drawAt d i
+      s!"{c} {d'}"
+    | _, _ => "bad-op"
+  | _ => RP.Driver.GameOps.handle line
 
 def main : IO Unit := RP.Driver.run handle
